@@ -267,7 +267,7 @@ def run_unit(u, root, tier, verbose=False):
                 cdir = os.path.join(wdir, 'cov')
                 os.makedirs(cdir, exist_ok=True)
                 gbc, _, _, _ = build_unit(u, cdir, ['-DVERIF_COVER'])
-                f_cov = ex.submit(run, ['cbmc', gbc] + fl + ['--json-ui'], tmo, None, cov_json)
+                f_cov = ex.submit(run, ['cbmc', gbc] + fl, tmo, None, cov_json)   # text UI: --json-ui would build a trace per reached cover
             rc, _, err, dt = f_main.result()
             res['solver_s'] = round(dt, 2)
             if rc is None:
@@ -323,8 +323,11 @@ def run_unit(u, root, tier, verbose=False):
                 rc2, _, err2, dt2 = f_cov.result()
                 if rc2 is None:
                     raise ToolError('cbmc --cover timeout on %s' % u['name'])
-                cres, _, _, _ = parse_cbmc_json(cov_json)
-                goals = [g for g in cres if g.get('description', '').startswith('COVER:')]
+                goals = []
+                for ln in open(cov_json, errors='replace'):
+                    mm = re.match(r'^\[[^\]]*\] line (\d+) (COVER: .*): (SUCCESS|FAILURE|UNKNOWN)\s*$', ln)
+                    if mm:
+                        goals.append({'description': mm.group(2), 'status': mm.group(3), 'sourceLocation': {'line': mm.group(1)}})
                 if not goals:
                     raise ToolError('cover run gave no goals for %s (%s)' % (u['name'], err2[-500:]))
                 unsat = [g for g in goals if g['status'] != 'FAILURE']
